@@ -1018,7 +1018,15 @@ func (ndb *nodeDB) getLatestVersion() (bool, int64, error) {
 			}
 		}
 		if latestVersion > 0 {
-			ndb.resetLatestVersion(latestVersion)
+			// (a committer may have advanced the cached value while the store was being read:
+			// what was discovered must not take it back)
+			ndb.mtx.Lock()
+			if ndb.latestVersion < latestVersion {
+				ndb.latestVersion = latestVersion
+			} else {
+				latestVersion = ndb.latestVersion
+			}
+			ndb.mtx.Unlock()
 			return true, latestVersion, nil
 		}
 	}
@@ -1033,7 +1041,13 @@ func (ndb *nodeDB) getLatestVersion() (bool, int64, error) {
 		return false, 0, err
 	}
 	if latestVersion > 0 {
-		ndb.resetLatestVersion(latestVersion)
+		ndb.mtx.Lock()
+		if ndb.latestVersion < latestVersion {
+			ndb.latestVersion = latestVersion
+		} else {
+			latestVersion = ndb.latestVersion
+		}
+		ndb.mtx.Unlock()
 		return true, latestVersion, nil
 	}
 
